@@ -7,7 +7,7 @@ import (
 	"git.defalsify.org/vise.git/db"
 )
 
-func (pdb *pgDb) Dump(ctx context.Context, key []byte) (*db.Dumper, error) {
+func (pdb *pgDb) Dump(ctx context.Context, key []byte) (o *db.Dumper, err error) {
 	tx, err := pdb.conn.BeginTx(ctx, defaultTxOptions)
 	if err != nil {
 		return nil, err
@@ -27,7 +27,13 @@ func (pdb *pgDb) Dump(ctx context.Context, key []byte) (*db.Dumper, error) {
 		tx.Rollback(ctx)
 		return nil, err
 	}
-	defer tx.Commit(ctx)
+	defer func() {
+		cerr := tx.Commit(ctx)
+		if cerr != nil && err == nil {
+			pdb.closeFunc()
+			o, err = nil, cerr
+		}
+	}()
 
 	if rs.Next() {
 		var kk []byte
